@@ -288,6 +288,42 @@ def mech_validate(verdict, runs, module, cfg, tag, label, model_name, probes=())
             'runs_rejected': drift, 'corruption_probes': pr}
 
 
+def lin_validate(verdict, runs, module, cfg, tag, label, clause, max_report=10):
+    """Histories (call/ret events) must be linearizable w.r.t. the model the trace spec re-uses.  A rejected run is a
+    violation of `clause` (replay file = the recorded history); validation goes on with the runs after it."""
+    stats = {'runs': len(runs), 'events': 0, 'tlc_states': 0, 'rejected': 0}
+    rest = list(runs)
+    k = 0
+    while rest and stats['rejected'] < max_report:
+        flat = [e for r in rest for e in r]
+        path = os.path.join(WORK, tag, f'{label}.lin{k}.ndjson')
+        os.makedirs(os.path.dirname(path), exist_ok=True)
+        write_ndjson(path, flat)
+        res = tlc_mech_trace(module, path, name=f'{tag}_{label}_lin{k}', cfg=cfg)
+        stats['tlc_states'] += res.get('tlc_states') or 0
+        k += 1
+        if res['matched'] == res['total'] and not res['invariant_violated']:
+            stats['events'] += res['total']
+            break
+        i = min(max(res['matched'], 0), len(flat) - 1)
+        start = max(j for j in range(i + 1) if flat[j].get('e') == 'reset')
+        # which run is it
+        pos, idx = 0, 0
+        for idx, r in enumerate(rest):
+            if pos == start:
+                break
+            pos += len(r)
+        bad = rest[idx]
+        stats['events'] += start
+        stats['rejected'] += 1
+        cls = bad[0].get('stim', {}).get('class', '')
+        verdict.add(f'{label}:{clause}:{cls}',
+                    f'run {bad[0].get("run")}: no interleaving of atomic operations explains the recorded history; first unexplained event #{i - start + 1} {json.dumps(flat[i])[:200]}'
+                    + (f' (model invariant {res["invariant_violated"]})' if res['invariant_violated'] else ''), replay_rows=bad)
+        rest = rest[idx + 1:]
+    return stats
+
+
 # ----------------------------------------------------------------------------- runs / replay files
 def split_runs(events):
     runs, cur = [], None
